@@ -157,7 +157,7 @@ func BuildLink(l Link) (*delegation.Token, cid.Cid, []byte, error) {
 	if l.Nbf != nil {
 		opts = append(opts, delegation.WithNotBeforeIn(dur(*l.Nbf)))
 	}
-	if l.Exp != nil {
+	if l.Exp != nil && l.ExpAbs == nil {
 		opts = append(opts, delegation.WithExpirationIn(dur(*l.Exp)))
 	}
 	if l.NbfAbs != nil {
@@ -454,7 +454,7 @@ func Eval(c Case) Rules {
 	}
 	r.R[9] = c.Inv.Exp == nil || *c.Inv.Exp > 0
 	for _, l := range c.Links {
-		if l.Exp != nil && *l.Exp <= 0 {
+		if l.Exp != nil && l.ExpAbs == nil && *l.Exp <= 0 { // an absolute (far-future) expiration takes precedence
 			r.R[9] = false
 		}
 		if l.Nbf != nil && *l.Nbf > 0 {
